@@ -15,7 +15,13 @@ if __name__ == '__main__':
     import kernpy as kp
     case = json.load(sys.stdin)
     doc, _ = kp.loads(S.render(case['doc']))
-    state = {}
+    keys = []
+    for row in case['doc']['rows']:
+        if 'g' in row and row['g'].startswith('!!!') and ':' in row['g']:
+            k = row['g'][3:].split(':')[0]
+            if k not in keys:
+                keys.append(k)
+    state = {'doc_keys': keys}
     out = []
     for o in case['ops']:
         out.append(c14.apply(doc, o, state))
